@@ -55,6 +55,7 @@ def check(ck):
     r13_5(ck)
     r13_6(ck)
     r13_7(ck)
+    r13_8(ck)
 
 
 def _tuple_consts(node):
@@ -636,3 +637,66 @@ def r13_7(ck):
                        'parallel process, and the fetch raises' % (
                            A.short(gets[0], 30) if gets else ''), loop)
     ck.floor('R13.7', n, 2, 'apply loops')
+
+
+def r13_8(ck):
+    ck.rule('R13.8', "the worker answers every command except 'end' with "
+            'exactly one message: one run_command and one send of its '
+            'result per loop iteration; the process it runs is the wrapped '
+            'one')
+    h = ck.fn('_handle_parallel_process', 'core.process')
+    cfg = cfg_of(h.node)
+    loops = [l for l in A.walk_no_nested(h.node)
+             if isinstance(l, ast.While)]
+    ck.require(len(loops) == 1, 'R13.8', h, h.node.name,
+               'the worker serves commands in one loop', None)
+    if not loops:
+        return
+    lp = loops[0]
+    recvs = [c for c in A.calls_in(lp, 'recv')]
+    runs = [c for c in A.calls_in(lp, 'run_command')]
+    sends = [c for c in A.calls_in(lp, 'send')]
+    ck.require(len(recvs) == 1 and len(runs) == 1 and len(sends) == 1,
+               'R13.8', h, lp,
+               'one recv, one run_command and one send per iteration',
+               'the worker loop has %d recv / %d run_command / %d send '
+               'calls: commands and answers get out of step' % (
+                   len(recvs), len(runs), len(sends)), lp)
+    if len(runs) == 1 and len(sends) == 1:
+        proc = A.params_of(h.node)[1]
+        ok = A.is_name(A.call_receiver(runs[0]), proc) and [
+            A.unparse(a) for a in runs[0].args] == ['command', 'args',
+                                                   'kwargs']
+        ck.require(ok, 'R13.8', h, runs[0],
+                   'the received (command, args, kwargs) is run on the '
+                   'wrapped process', None, runs[0])
+        a0 = A.arg_of(sends[0], 0)
+        ok = derives(h.node, a0, lambda x: x is runs[0], at=sends[0])
+        ck.require(ok, 'R13.8', h, sends[0],
+                   'what is sent back is the result of that command',
+                   'the worker sends back %s, not the result of the '
+                   'command' % A.unparse(a0), sends[0])
+        g_run = cfg.guards(cfg.node(runs[0]))
+        g_send = cfg.guards(cfg.node(sends[0]))
+        ck.require(g_run == g_send and any(
+            a[0] == '!=' and "'end'" in a[1:] for a in g_run), 'R13.8', h,
+            sends[0],
+            "run and send happen together, for every command but 'end'",
+            'run_command and send are not under the same condition '
+            "(command != 'end')", sends[0])
+    pp = ck.fn('ParallelProcess.__init__', 'core.process')
+    tgt = [c for c in A.calls_in(pp.node, 'Process')
+           if any(k.arg == 'target' for k in c.keywords)]
+    ok = False
+    for c in tgt:
+        t = A.arg_of(c, None, 'target')
+        a = A.arg_of(c, None, 'args')
+        ok = A.is_name(t, '_handle_parallel_process') and isinstance(
+            a, ast.Tuple) and len(a.elts) == 3 and A.is_name(
+            a.elts[1], A.params_of(pp.node)[1])
+    ck.require(ok, 'R13.8', pp, tgt[0] if tgt else pp.node.name,
+               'the worker is started on the wrapped process with the '
+               'child end of the pipe', None)
+    st = [c for c in A.calls_in(pp.node, 'start')]
+    ck.require(bool(st), 'R13.8', pp, pp.node.name,
+               'the worker is started at construction', None)
